@@ -63,7 +63,15 @@ type Decoder struct {
 
 	// nesting depth of the value being read (see _maxDecodeDepth)
 	depth int
+
+	// > 0 while the value of a wire field without Go counterpart is read in order to be dropped: such a value
+	// may be of a class, list type or map type nobody registered (the peer added a field of a new type)
+	skipping int
 }
+
+// skippedObject stands in the ref list for an instance of an unregistered class that was read and dropped: it
+// keeps the ordinals of everything after it right
+type skippedObject struct{ class string }
 
 // _maxDecodeDepth bounds the nesting of a value: the readers call one another once per level, and a
 // megabyte of list tags would otherwise exhaust the goroutine stack, which no recover can catch
@@ -134,7 +142,7 @@ func (d *Decoder) ReadObject() (obj interface{}, err error) {
 			obj, err = nil, newCodecError("ReadObject", "invalid data: %v", r)
 		}
 	}()
-	d.depth = 0
+	d.depth, d.skipping = 0, 0
 	return EnsureInterface(d.ReadData())
 }
 
